@@ -25,7 +25,9 @@ RULE = ("one case = one upload through the real Uploader (or one hashutil tag/ke
         "FileHandle over a file whose 64-KiB key-hashing reads are short, FileHandle subclass returning odd-sized chunk lists; "
         "sizes 0..~100 KiB (thorough 300 KiB) concentrated on 54/55/56 and segment boundaries; parameter variations of secret, "
         "k, N, max_segment_size; distinct = distinct (data seed, size, source, secret, k, n, maxSeg); non-trivial = CHK path or "
-        "a literal with non-empty data")
+        "a literal with non-empty data; plus the same literal-sized uploads (and 56+-byte ones, which must fail) on clients "
+        "with zero servers (never had any / all removed / broker emptied), sources Data, FileHandle, FileName, short-reading "
+        "file, chunk lists, with and without convergence secret")
 TRUSTED = ["lean/Tahoe/Immutable/Convergence.lean is a hand transcription of hashutil._convergence_hasher_tag / "
            "convergence_hasher, FileHandle._get_encryption_key_convergent/_random and Uploader.upload's LIT/CHK decision",
            "lean/Tahoe/Base/Sha256.lean (executable SHA-256 used only by the driver; compared with hashlib on every case)"]
@@ -291,9 +293,101 @@ def run_uploads(ctx):
         ctx.sample({"upload": metas[0], "impl": impl[0][:200]})
 
 
+def run_noservers(ctx):
+    """literal-sized uploads need no servers: on a client with zero (connected) servers every file of <= 55 bytes still
+    gets its LIT cap (data embedded, no server call), from every kind of uploadable, with and without a convergence
+    secret; a file of > 55 bytes on the same client fails with a no-servers / unhappiness error"""
+    import os
+    import grid
+    import common
+    from allmydata.immutable import upload
+    from allmydata.interfaces import NoServersError, UploadUnhappinessError
+    from allmydata import uri
+    rng = ctx.rng
+    Chunky = make_chunky(upload)
+    lines, impl, metas = [], [], []
+    for gi in range(ctx.budget(4, 30)):
+        k = rng.choice([1, 2, 3])
+        n = rng.randrange(k, k + 4)
+        max_seg = rng.choice([16, 128, 131072])
+        mode = rng.choice(["never-had-servers", "all-removed", "broker-cleared"])
+        seed = rng.randrange(1 << 30)
+        with grid.Runtime(seed=seed, policy="random") as rt:
+            nsrv = 0 if mode == "never-had-servers" else rng.randrange(1, n + 2)
+            g = grid.Grid(grid.fresh_dir("c05n"), rt, num_servers=nsrv, num_clients=1, k=k, happy=1, n=n, max_segment_size=max_seg)
+            try:
+                c = g.clients[0]
+                wrappers = dict(g.wrappers)
+                if mode == "all-removed":
+                    for i in list(g.servers):
+                        g.remove_server(i)
+                elif mode == "broker-cleared":
+                    del g.broker.servers[:]
+                sizes = [0, 1, 7, 54, 55, rng.randrange(0, 56), rng.randrange(0, 56), 56, 57, rng.randrange(56, 400)]
+                for size in sizes:
+                    dseed = rng.randrange(1 << 30)
+                    data = bytes(random.Random(dseed).randrange(256) for _ in range(size))
+                    for conv in (bytes(rng.randrange(256) for _ in range(rng.choice([0, 16]))), None):
+                        fn = os.path.join(common.WORK, "c05-file-%d" % os.getpid())
+                        with open(fn, "wb") as f:
+                            f.write(data)
+                        sources = [("Data", lambda: upload.Data(data, convergence=conv)),
+                                   ("FileHandle", lambda: upload.FileHandle(io.BytesIO(data), convergence=conv)),
+                                   ("FileName", lambda: upload.FileName(fn, convergence=conv)),
+                                   ("ShortReadFile", lambda: upload.FileHandle(ShortFile(data, random.Random(dseed + 1), None), convergence=conv)),
+                                   ("ChunkLists", lambda: Chunky(io.BytesIO(data), conv, random.Random(dseed + 2)))]
+                        if size > 55:
+                            sources = sources[:2]
+                        for name, mk in sources:
+                            case = {"kind": "noservers", "mode": mode, "size": size, "dseed": dseed, "source": name,
+                                    "conv": None if conv is None else conv.hex(), "k": k, "n": n, "maxSeg": max_seg, "seed": seed}
+                            before = {i: dict(w.counter_by_methname) for i, w in wrappers.items()}
+                            try:
+                                res = rt.wait(c.upload(mk()))
+                                err = None
+                            except Exception as ex:
+                                res, err = None, ex
+                            called = {i: dict(w.counter_by_methname) for i, w in wrappers.items()} != before
+                            ctx.case(("NS", mode, size, name, conv is None, dseed) if size else None)
+                            if size <= 55:
+                                ctx.count("noservers:lit:" + name)
+                                if err is not None:
+                                    ctx.violation("a literal-sized upload failed on a client without servers", case,
+                                                  "lit-needs-servers-" + type(err).__name__, repr(err)[:200])
+                                    continue
+                                cap = uri.from_string(res.get_uri())
+                                if not isinstance(cap, uri.LiteralFileURI) or cap.data != data:
+                                    ctx.violation("a file of <= 55 bytes did not get a literal cap embedding its data", case,
+                                                  "lit-cap-size-%d" % size)
+                                if called:
+                                    ctx.violation("a literal upload contacted a storage server", case, "lit-server-call")
+                                lines.append("cap %s 00 %d %d %d %s ." % ("N" if conv is None else (hx(conv) if conv else "-"),
+                                                                           k, n, max_seg, hx(data)))
+                                impl.append("LIT;%s;0" % hx(getattr(cap, "data", b"")))
+                                metas.append(case)
+                            else:
+                                ctx.count("noservers:chk")
+                                if err is None:
+                                    ctx.violation("a file of > 55 bytes was uploaded although the client has no servers", case,
+                                                  "chk-without-servers")
+                                elif not isinstance(err, (NoServersError, UploadUnhappinessError)):
+                                    ctx.violation("upload of > 55 bytes without servers failed with an unexpected error", case,
+                                                  "chk-without-servers-error-" + type(err).__name__, repr(err)[:200])
+                        try:
+                            os.unlink(fn)
+                        except OSError:
+                            pass
+            finally:
+                g.close()
+    model = ctx.model(lines)
+    if model is not None:
+        ctx.compare("literal uploads on a client without servers: LIT cap with the data embedded", metas, impl, model)
+
+
 def run(ctx):
     import common
     common.setup_impl_path()
     import grid  # noqa: F401
     run_hashutil(ctx)
+    run_noservers(ctx)
     run_uploads(ctx)
